@@ -54,6 +54,15 @@ CLAIMED.update({
    technique=TECH + ": seeded operation histories on aliased containers with live iterators and callbacks, simulator-chosen map order, CPython reference model"),
 })
 
+CLAIMED.update({
+ "C08": dict(engine="isolation+race-contexts", design="§3 C08",
+   text="Mode A (deterministic simulation): 2-4 contexts, one cooperative task each, run generated programs that write context-specific values to and read back 21 kinds of reachable per-context state (module globals, attributes of Go modules incl. os.environ, sys.path/sys.argv in place and rebound, builtins added and rebound, a source module from a shared virtual file system, class attributes, mutable defaults, attributes of built-in types), optionally all on ONE shared code object, interleaved at every VM instruction by a seeded scheduler; each context's trace must equal its solo trace and a fingerprint of the process-global state from which contexts are built (module implementations, built-in type dictionaries) must not change. Mode B (stated as NOT deterministic): the same scenarios and parallel REPL sessions on free-running goroutines in a -race build of the uninstrumented tree; zero race reports and solo equivalence.",
+   note="Trusted: rewrites R1-R3/R5; mode A explores sequentially-consistent interleavings only. Mode B decides only the data-race clause, on the executed paths of the sampled scenarios; a race report ends the worker and is reported with the scenario. One known finding (vm.PrintExpr hook raced by concurrent REPL sessions) is listed in known_findings.json.",
+   technique=TECH + ": seeded cooperative interleaving of contexts at VM-instruction granularity, solo-run equivalence + global-state fingerprint; plus race-detector runs on real goroutines for the data-race clause"),
+})
+CLAIMED["C18"]["engine"] = "compiledet+race-compile"
+CLAIMED["C18"]["text"] += " Mode B (not deterministic): 4-16 real goroutines compile concurrently in a -race build of the uninstrumented tree; dumps must agree and the race detector must stay silent."
+
 NA = {
  "C01": "pure function of the program text (evaluation order/grouping): no schedule, clock, fault or environment history to simulate; needs enumeration against a reference semantics",
  "C02": "which statement raises/returns is fixed by program + inputs; the unwinding loop is deterministic and single-threaded; no simulation target",
@@ -68,7 +77,6 @@ NA = {
  "C16": "attribute lookup is a function of the class-hierarchy program; no concurrency or environment choice enters",
 }
 PENDING = {
- "C08": "engine `isolation` not built yet",
 }
 
 def main():
